@@ -155,7 +155,7 @@ def _chk_bh(args, q, old):
                 best = min(best, n * p[j] / rj)
         exp[i] = best
     q = np.asarray(q, dtype=float)
-    if len(q) != n or np.abs(q - exp).max() > 1e-12:
+    if len(q) != n or not np.abs(q - exp).max() <= 1e-12:
         return "BH-adjusted %r, expected %r for p=%r" % (q[:8].tolist(), exp[:8].tolist(), p[:8].tolist())
 
 
@@ -214,7 +214,7 @@ def _chk_bintest(args, res, old):
             old["alpha"], old["target_only"], len(got), got[:5], len(want), want[:5])
     qd = {k: v for k, v in zip([(r.chromosome, r.start, r.end) for r, d in resid], q)}
     for r in res.data.itertuples(index=False):
-        if abs(r.p_bintest - qd[(r.chromosome, r.start, r.end)]) > 1e-9:
+        if not abs(r.p_bintest - qd[(r.chromosome, r.start, r.end)]) <= 1e-9:
             return "adjusted p of bin %r is %r, expected %r" % ((r.chromosome, r.start, r.end), r.p_bintest, qd[(r.chromosome, r.start, r.end)])
 
 
